@@ -714,4 +714,36 @@ theorem bfv_encrypt_decrypt_sk {l : Level} (hl : l.WF) (hd : DecOK l) (hb : l.sc
     rw [e'] at h
     exact h
 
+/-! ## seed expansion and the level dispatch -/
+
+theorem c01e_toRns_ofRns (p : RnsPoly) : toRns (ofRns p) = p := by
+  unfold toRns ofRns
+  apply Array.ext (by simp)
+  intro i h1 h2
+  simp
+
+/-- `expand_seed` restores the ciphertext: if the generator seeded with the stored seed expands (`sample::uniform`, Rng model) to
+    the polynomial c1, then expanding the seed-compressed object (c0, seed) gives back (c0, c1) -/
+theorem expandSeed_toSeeded (U : Rng.Uniform) (xof : Rng.Xof) (l : Level) (c0 c1 : RnsPoly) (ntt : Bool) (cf : Nat) (seed : Rng.Seed)
+    (st : Rng.St)
+    (h : Rng.uniformPoly U xof (Rng.fromSeed seed) l.n (l.qs.toList.map (·.value)) = .ok (ofRns c1, st)) :
+    expandSeed U xof l ((⟨#[c0, c1], ntt, cf⟩ : Ct).toSeeded seed) = .ok ⟨#[c0, c1], ntt, cf⟩ := by
+  unfold expandSeed Ct.toSeeded
+  simp only []
+  rw [h, ok_bind]
+  show Except.ok (⟨#[c0, toRns (ofRns c1)], ntt, cf⟩ : Ct) = _
+  rw [c01e_toRns_ofRns]
+
+/-- the modulus switch inside public-key encryption is `modSwitchScaleNext` of the previous level (BFV, CKKS; for BGV it differs
+    only in the correction factor, which encryption leaves at 1): the theorems of C05U (`modSwitchScaleNext_bfv_spec`,
+    `…_ckks_spec`) apply to the special-prime path -/
+theorem encDivideQLast_eq_modSwitch {pl : Level} (h2 : 2 ≤ pl.size) (hs : pl.scheme ≠ .bgv) (ct : Ct)
+    (hn : ct.ntt = pl.scheme.encNtt) : encDivideQLast pl (pl.size - 1) ct = modSwitchScaleNext pl ct := by
+  unfold encDivideQLast modSwitchScaleNext
+  rw [if_neg (by omega)]
+  cases hsc : pl.scheme with
+  | bfv => simp only [hsc, Scheme.encNtt] at hn ⊢; rw [hn]; rfl
+  | ckks => simp only [hsc, Scheme.encNtt] at hn ⊢; rw [hn]; rfl
+  | bgv => exact absurd hsc hs
+
 end HC
